@@ -84,6 +84,58 @@ func c01Tree(cs int64, forceCustom int) (*Tree, bool) {
 			L.Kust["configurations"] = []interface{}{"tcfg.yaml"}
 		}
 	}
+	if r.Intn(4) == 0 {
+		// a directive that is bound to fail (or to fail unless the tree happens to satisfy it): the ERROR of a build is
+		// part of its result and must be the same text on every repetition and after every history
+		L := t.Layers[r.Intn(len(t.Layers))]
+		cmSrc := Obj{"apiVersion": "v1", "kind": "ConfigMap", "metadata": Obj{"name": "failsrc"}, "data": Obj{"v": "a:b", "w": "x"}}
+		cmTgt := Obj{"apiVersion": "v1", "kind": "ConfigMap", "metadata": Obj{"name": "failtgt", "labels": Obj{"q": "r"}}, "data": Obj{"k": "v"}, "list": []interface{}{"a"}}
+		addPair := func() {
+			L.ResF = append(L.ResF, "failpair.yaml")
+			L.Docs["failpair.yaml"] = []Obj{cmSrc, cmTgt}
+		}
+		repl := func(src Obj, tgt Obj) {
+			addPair()
+			L.Kust["replacements"] = []interface{}{Obj{"source": src, "targets": []interface{}{tgt}}}
+		}
+		src := Obj{"kind": "ConfigMap", "name": "failsrc", "fieldPath": "data.v"}
+		sel := Obj{"kind": "ConfigMap", "name": "failtgt"}
+		switch r.Intn(14) {
+		case 0:
+			repl(src, Obj{"select": sel, "fieldPaths": []interface{}{"data.nothere"}})
+		case 1:
+			repl(src, Obj{"select": sel, "fieldPaths": []interface{}{"list.5"}})
+		case 2:
+			repl(src, Obj{"select": sel, "fieldPaths": []interface{}{"metadata.labels"}, "options": Obj{"delimiter": ":"}})
+		case 3:
+			repl(Obj{"kind": "ConfigMap", "name": "failsrc", "fieldPath": "data.v", "options": Obj{"delimiter": ":", "index": 7}}, Obj{"select": sel, "fieldPaths": []interface{}{"data.k"}})
+		case 4:
+			repl(Obj{"kind": "ConfigMap", "fieldPath": "data.v"}, Obj{"select": sel, "fieldPaths": []interface{}{"data.k"}})
+		case 5:
+			repl(Obj{"kind": "ConfigMap", "name": "nobody"}, Obj{"select": sel, "fieldPaths": []interface{}{"data.k"}})
+		case 6:
+			repl(Obj{"kind": "ConfigMap", "name": "failsrc", "fieldPath": "data.zz"}, Obj{"select": sel})
+		case 7:
+			addPair()
+			L.Kust["patches"] = []interface{}{Obj{"target": Obj{"kind": "ConfigMap", "name": "failtgt"}, "patch": "- op: remove\n  path: /data/nothere\n"}}
+		case 8:
+			addPair()
+			L.Kust["patches"] = []interface{}{Obj{"target": Obj{"kind": "ConfigMap", "name": "failtgt"}, "patch": "- op: test\n  path: /data/k\n  value: other\n"}}
+		case 9:
+			L.Kust["patchesStrategicMerge"] = []interface{}{"nopatch.yaml"}
+			L.Files["nopatch.yaml"] = "apiVersion: v1\nkind: ConfigMap\nmetadata:\n  name: nosuchtarget\ndata:\n  a: b\n"
+		case 10:
+			L.Kust["configMapGenerator"] = []interface{}{Obj{"name": "nosuchgen", "behavior": pickS(r, []string{"merge", "replace"}), "literals": []interface{}{"a=b"}}}
+		case 11:
+			L.ResF = append(L.ResF, "dup.yaml")
+			L.Docs["dup.yaml"] = []Obj{cmTgt, cmTgt}
+		case 12:
+			addPair()
+			L.Kust["vars"] = []interface{}{Obj{"name": "V", "objref": Obj{"kind": "ConfigMap", "name": "failsrc", "apiVersion": "v1"}, "fieldref": Obj{"fieldpath": "data.nothere"}}}
+		default:
+			L.Kust["configMapGenerator"] = []interface{}{Obj{"name": "badgen", "literals": []interface{}{"noequals"}, "files": []interface{}{"nofile.txt"}}}
+		}
+	}
 	if custom {
 		top.Files["schema.yaml"] = customSchemaYAML
 		top.Kust["openapi"] = Obj{"path": "schema.yaml"}
